@@ -14,7 +14,7 @@ RULE = ("reference = random tree / cyclic graph / exactly collinear chain (axes,
 
 def generate(ctx):
     rng = ctx.rng
-    for _ in range(ctx.n(800, 12000)):
+    for _ in range(ctx.n(2000, 12000)):
         cls = rng.choice(["generic-tree", "generic-tree", "generic-cyclic", "collinear-chain", "axis-chain",
                           "tilted-axis-chain", "partly-collinear", "nearly-collinear", "lattice"])
         pos, bonds, cls = E.gen_ref(rng, cls)
